@@ -32,6 +32,8 @@ type GenOpts struct {
 	IDBFacts    bool // some derived predicates also have base facts written in the program
 	Ring        bool // add a ring of 2-4 mutually recursive predicates with one entry point and a consumer
 	AggBias     bool // C02: most rules aggregate, several aggregating rules per head
+	EqBind      bool // non-recursive rules may bind a new variable by an equality (Y = fn:plus(X, 2), Y = X, Y = /a) without any comparison guard
+	HeadFn      bool // non-recursive rules may have a function expression in the head (p(fn:plus(X, 1)) :- ...)
 }
 
 // DrawOpts draws swarm flags from the tape.
@@ -418,7 +420,30 @@ func (g *gen) genRule(h PredInfo, k int) Rule {
 	// extras
 	nExtra := r.Choose(3, "gen.nextra")
 	for x := 0; x < nExtra; x++ {
-		switch r.Choose(7, "gen.extra.kind") {
+		switch r.Choose(8, "gen.extra.kind") {
+		case 7: // an equality that gives a value to a new variable
+			if !o.EqBind || rec {
+				continue
+			}
+			y := fmt.Sprintf("X%d", env.n)
+			env.n++
+			t := []Ty{TInt, TName}[r.Choose(2, "gen.eqbind.ty")]
+			var e Expr
+			if v, ok := g.pickVar(env, t, "gen.eqbind.var"); ok && !r.OneIn(4, "gen.eqbind.const") {
+				e = V(v)
+				if t == TInt && r.Bool("gen.eqbind.fn") {
+					e = Fn("fn:plus", V(v), C(IntV(int64(1+r.Choose(3, "gen.eqbind.k")))))
+				}
+			} else {
+				e = C(g.constOf(t))
+			}
+			if r.OneIn(4, "gen.eqbind.flip") {
+				body = append(body, Lit{K: LEq, Args: []Expr{e, V(y)}})
+			} else {
+				body = append(body, Lit{K: LEq, Args: []Expr{V(y), e}})
+			}
+			// the new variable is the preferred one of its type from here on
+			env.byType[t] = append([]string{y}, env.byType[t]...)
 		case 0: // comparison
 			if !o.Compare || o.NoOrderCmp {
 				continue
@@ -624,7 +649,11 @@ func (g *gen) genRule(h PredInfo, k int) Rule {
 		}
 	}
 	for _, t := range h.Cols {
-		rule.HArgs = append(rule.HArgs, g.boundArg(env, t))
+		a := g.boundArg(env, t)
+		if o.HeadFn && !rec && t == TInt && a.Var != "" && r.OneIn(3, "gen.headfn") {
+			a = Fn("fn:plus", a, C(IntV(int64(1+r.Choose(3, "gen.headfn.k")))))
+		}
+		rule.HArgs = append(rule.HArgs, a)
 	}
 	return rule
 }
